@@ -220,21 +220,36 @@ func execUDP(t *testing.T, tr *vrt.Tracer, sc udpScenario, ex *vrt.Explorer) {
 		mu.Unlock()
 		// clean-up, not part of the history
 		vrt.Uninstall()
-		_ = ln.Close()
-		for _, c := range conns {
-			_ = c.Close()
-		}
-		for _, rs := range remotes {
-			_ = rs.Close()
-		}
-		wg.Wait()
+		cleaned := make(chan struct{})
+		go func() {
+			_ = ln.Close()
+			for _, c := range conns {
+				_ = c.Close()
+			}
+			close(cleaned)
+		}()
 		synctest.Wait()
-		if vrt.FakePortBound(lport) || pkgGoroutines() > 0 {
+		hung := false
+		select {
+		case <-cleaned:
+			for _, rs := range remotes {
+				_ = rs.Close()
+			}
+			wg.Wait()
+			synctest.Wait()
+		default:
+			hung = true // a Close call does not return although nothing else is running
+		}
+		if hung || vrt.FakePortBound(lport) || pkgGoroutines() > 0 {
 			// everything is closed now, yet the socket or a goroutine of the package survives
 			tr.Emit(vrt.M{"ev": "reset", "scenario": sc.Name + "/after-cleanup"})
 			tr.Emit(vrt.M{"ev": "call", "p": 1, "op": "lclose", "h": 0})
-			tr.Emit(vrt.M{"ev": "ret", "p": 1, "res": "ok", "remote": 0, "h": 0})
-			tr.Emit(vrt.M{"ev": "quiesce", "blocked": []int{}, "sock": vrt.FakePortBound(lport), "leaked": pkgGoroutines(), "sched": ex.Trail()})
+			if hung {
+				tr.Emit(vrt.M{"ev": "quiesce", "blocked": []int{1}, "sock": vrt.FakePortBound(lport), "leaked": pkgGoroutines(), "sched": ex.Trail()})
+			} else {
+				tr.Emit(vrt.M{"ev": "ret", "p": 1, "res": "ok", "remote": 0, "h": 0})
+				tr.Emit(vrt.M{"ev": "quiesce", "blocked": []int{}, "sock": vrt.FakePortBound(lport), "leaked": pkgGoroutines(), "sched": ex.Trail()})
+			}
 			tr.Close()
 			panic("verif: listener socket or goroutine survives the closing of everything (recorded)")
 		}
